@@ -448,16 +448,16 @@ inline int selftest_scrypt() {
     }
 
     // libsodium vectors for crypto_pwhash_scryptsalsa208sha256(): /repo/test/default/pwhash_scrypt.c tv()/tv2() with
-    // outputs from pwhash_scrypt.exp. Only tv2 (CPU-bound branch of pickparams) and the cheapest tv entry (memory-bound
-    // branch, p = 3) are kept to bound the self-test time; all 11 were checked once at development time.
+    // outputs from pwhash_scrypt.exp. Only tv2[0] (CPU-bound branch of pickparams) and tv[0] (memory-bound branch, p = 3)
+    // are kept to bound the self-test time; all 11 were checked once at development time.
     {
         static const struct { const char *pw_hex, *salt_hex; size_t outlen; uint64_t ops; size_t mem; const char *out_hex; } tv[] = {
             { "a347ae92bce9f80f6f595a4480fc9c2fe7e7d7148d371e9487d75f5c23008ffae065577a928febd9b1973a5a95073acdbeb6a030cfc0d79caa2dc5cd011cef02c08da232d76d52dfbca38ca8dcbd665b17d1665f7cf5fe59772ec909733b24de97d6f58d220b20c60d7c07ec1fd93c52c31020300c6c1facd77937a597c7a6",
               "5541fbc995d5c197ba290346d2c559dedf405cf97e5f95482143202f9e74f5c2", 155, 64, 1397645,
               "d54916748076b9d9f72198c8fbef563462dc8c706e1ad38abd1fac570016721acd0a7659ab49a47299a996b43597690c0c947143069f35d83e606273dbf2d622321393949b8ed5a68315362c4f84804384d05e0e0e86bc00e3641233f9f975ab46b60ba185c5e5fe47f78efd207e69fd8f6390730828b93b9b3763ea1283caa03bc36726763715de811915681dd214524f5ad4dd386608cac6c7f2" },   // tv #10 -> N_log2=10 r=8 p=1
-            { "b540beb016a5366524d4605156493f9874514a5aa58818cd0c6dfffaa9e90205f17b",
-              "44071f6d181561670bda728d43fb79b443bb805afdebaf98622b5165e01b15fb", 231, 78652, 6631659,
-              "d7b1ef464be03ce9050b5108e25f0b8e821299986fe0ff89e17fbae65ba9fad167fbd265866ac03efc86ab0b50d46d6740a59adf5949b44f7f9f3ac3f3d4cc9f128966db9099deb1b6b78505242b2401a193820408eb0780b27162ebafb7c505b0e7c32ce66c6efc0be487008c1201454680498a2fc06e00b454e0b20933906bbb0e43b399b9ee46d882f107df1ebdd1e7cd867c9cdba6015b7e80064ae8b3417d969524bec046e782a13b125f058cd36b5d1ae65886ae7caab45a6d98651ada435b8ee11d5c1224232f5f515df974138dd6cf347b730481d4b073af8ff0394fe9f0b8cdfd99f5" },   // tv #8 -> N_log2=11 r=8 p=1
+            { "a347ae92bce9f80f6f595a4480fc9c2fe7e7d7148d371e9487d75f5c23008ffae065577a928febd9b1973a5a95073acdbeb6a030cfc0d79caa2dc5cd011cef02c08da232d76d52dfbca38ca8dcbd665b17d1665f7cf5fe59772ec909733b24de97d6f58d220b20c60d7c07ec1fd93c52c31020300c6c1facd77937a597c7a6",
+              "5541fbc995d5c197ba290346d2c559dedf405cf97e5f95482143202f9e74f5c2", 155, 481326, 7256678,
+              "8d40f5f8c6a1791204f03e19a98cd74f918b6e331b39cfc2415e5014d7738b7bb0a83551fb14a035e07fdd4dc0c60c1a6822ac253918979f6324ff0c87cba75d3b91f88f41ca5414a0f152bdc4d636f42ab2250afd058c19ec31a3374d1bd7133289bf21513ff67cbf8482e626aee9864c58fd05f9ea02e508a10182b7d838157119866f072004987ef6c56683ed207705923921af9d76444a331a" },   // tv #0 -> N_log2=12 r=8 p=3
         };
         for (size_t k = 0; k < sizeof tv / sizeof tv[0]; k++) {
             snprintf(name, sizeof name, "libsodium tv ops=%llu mem=%zu", (unsigned long long) tv[k].ops, tv[k].mem);
@@ -466,8 +466,9 @@ inline int selftest_scrypt() {
     }
 
     // "$7$" strings: /repo/test/default/pwhash_scrypt.c tv3(); pwhash_scrypt.exp says entries 0..9 verify and 10..32 do not.
-    // Of the valid ones only [2] and [9] are kept, and [20] (valid string, empty password) is dropped, to bound the self-test
-    // time; all 33 entries were checked once at development time. The other invalid ones are cheap or fail before hashing.
+    // To bound the self-test time only the entries that cost at most N*r*p = 100000 are kept: of the valid ones [2] and [9];
+    // dropped are [0],[1],[3]..[8], [20] (valid string, empty password) and [22] (r mutated to 35: still hashable, 4096*35*3).
+    // All 33 entries were checked once at development time. The remaining invalid ones are cheap or fail before hashing.
     {
         static const struct { int idx; const char *pw; const char *s; bool want; } sv[] = {
             {  2, "Py >e.5b+tLo@rL`dC2k@eJ&4eVl!W=JJ4+k&mAt@gt',FS1JjqKW3aq21:]^kna`mde7kVkN5NrpKUptu)@4*b&?BE_sJMG1=&@`3GBCV]Wg7xwgo7x3El",
@@ -496,8 +497,6 @@ inline int selftest_scrypt() {
               "$7$A6....!....TrXs5Zk6s8sWHpQgWDIXTR8kUU3s6Jc3s.DtdS8M2i4$a4ik5hGDN7foMuHOW.cp.CtX01UyCeO0.JAG.AHPpx5", false },
             { 21, "Y0!?iQa9M%5ekffW(`",
               "$7fA6....1....TrXs5Zk6s8sWHpQgWDIXTR8kUU3s6Jc3s.DtdS8M2i4#a4ik5hGDN7foMuHOW.cp.CtX01UyCeO0.JAG.AHPpx5", false },
-            { 22, "Y0!?iQa9M%5ekffW(`",
-              "$7$AX....1....TrXs5Zk6s8sWHpQgWDIXTR8kUU3s6Jc3s.DtdS8M2i4$a4ik5hGDN7foMuHOW.cp.CtX01UyCeO0.JAG.AHPpx5", false },
             { 23, "Y0!?iQa9M%5ekffW(`",
               "$7$A6....1!...TrXs5Zk6s8sWHpQgWDIXTR8kUU3s6Jc3s.DtdS8M2i4$a4ik5hGDN7foMuHOW.cp.CtX01UyCeO0.JAG.AHPpx5", false },
             { 24, "Y0!?iQa9M%5ekffW(`",
@@ -550,10 +549,10 @@ inline int selftest_scrypt() {
         t.ok("hash does not use the raw salt", ps.hash != scrypt(pw, salt, 16, 8, 1, 32));
         t.ok("verify", scrypt_verify_string(s, pw));
         t.ok("verify wrong password", !scrypt_verify_string(s, str("correct horsf")));
-        {   // pwhash_scrypt_str goes through pickparams: (32768, 4096) -> N_log2 2, r 8, p 256
-            std::string s2 = pwhash_scrypt_str(pw, salt, 32768, 4096);
+        {   // pwhash_scrypt_str goes through pickparams: (32768, 65536) -> maxN = 64 -> N_log2 6, r 8; maxrp = 8192/64 = 128 -> p 16
+            std::string s2 = pwhash_scrypt_str(pw, salt, 32768, 65536);
             ScryptStr p2 = scrypt_parse_string(s2);
-            t.ok("pwhash_scrypt_str", p2.ok && p2.N_log2 == 2 && p2.r == 8 && p2.p == 256 && scrypt_verify_string(s2, pw));
+            t.ok("pwhash_scrypt_str", p2.ok && p2.N_log2 == 6 && p2.r == 8 && p2.p == 16 && scrypt_verify_string(s2, pw));
         }
         std::string bad;
         bad = s; bad[100] = 'z';                     t.ok("non-canonical last hash char", !scrypt_parse_string(bad).ok);
